@@ -99,6 +99,7 @@ var yamlDocs = []string{
 	"a: 1\n", "a: 1", "a: 1\nb:\n  - x\n  - y\n", "# comment\nkey: value # trailing\n", "---\na: 1\n---\nb: 2\n",
 	"text: |\n  line\n  ---\n  more\n", "[TestY - 1]\n", "- 1\n- 2\n\n\n", "z: 1\ny: 2\nx: 3\n", "/-/-/-/\n", "s: \"quoted\"\n\n",
 	"a:\n  b:\n    c: [1, 2, 3]\n", "a: 1\n---\n---\nb: 2\n", "---\n---\na: 1\n", "x\n---\n---\n---\n", "k: v\n...\n", "? complex\n: value\n", "a: 2\n", "b: 1\n", "list:\n- a\n- b\n",
+	"\xef\xbb\xbfa: 1\nb: 2\n", "%YAML 1.2\n---\na: 75%\n",
 }
 
 var jsonDocs = []string{
